@@ -20,9 +20,27 @@ NOT_APPLICABLE = {
 
 # claimed by DESIGN.md but whose check is not built yet (kept out of `checks` until it runs clean end to end)
 PENDING = {p: "in scope for deterministic simulation (DESIGN.md §5) but the check is not built yet in this revision; not claimed"
-           for p in ["C07", "C11", "C12", "C13", "C14"]}
+           for p in ["C07", "C12", "C13", "C14"]}
 
 PROPS = {
+    "C11": {
+        "level": "exploration",
+        "race": True,
+        "level_text": "the same simulator built with -race; the scheduler's hand-offs are hidden from the race detector (runtime.RaceDisable around every kernel synchronisation, bookkeeping in //go:norace code), so the only happens-before edges it sees are the library's own and a serial, replayable schedule exposes every unordered conflicting access pair on the paths it executes; schedule exploration reaches the paths",
+        "level_note": TRUST + "; the Go race detector (a report is a definite race, a miss is possible: bounded shadow history, only executed paths); reports located purely in harness frames are harness trouble, never a verdict",
+        "technique": "deterministic simulation under the Go race detector with the scheduler baton hidden (happens-before race detection over seeded serial schedules)",
+        "rule": RULE_SCHED,
+        "scenarios": [
+            {"name": "race-value", "quick": 12000, "thorough": 1000000, "thorough_time": 100, "extra": ["-sim.only=race"]},
+            {"name": "race-coll", "quick": 16000, "thorough": 1000000, "thorough_time": 150, "extra": ["-sim.only=race"]},
+            {"name": "race-bus", "quick": 8000, "thorough": 1000000, "thorough_time": 60, "extra": ["-sim.only=race"]},
+            {"name": "race-router", "quick": 8000, "thorough": 1000000, "thorough_time": 60, "extra": ["-sim.only=race"]},
+            {"name": "race-group", "quick": 8000, "thorough": 1000000, "thorough_time": 60, "extra": ["-sim.only=race"]},
+            {"name": "race-models", "quick": 16000, "thorough": 1000000, "thorough_time": 150, "extra": ["-sim.only=race"]},
+        ],
+        "require_hits": ["resource.gau.commit", "bus.send.each", "router.get.insert", "electric.mu"],
+        "assumptions": ["tasks keep only task-local harness state; nothing is compared across tasks"],
+    },
     "C19": {
         "level": "exploration",
         "level_text": "seeded exploration of operation sequences through Model and through the ElectricApi/MemorySettingsApi server, first by one caller with per-call postconditions, then by 2-4 concurrent callers that are parked inside the underlying resource operations while holding the model mutex; the documented invariants at every quiescent point, start-time stamping against the injected clock, streams folded against Modes()/ActiveMode()",
